@@ -8,6 +8,7 @@ Tables (trusted, documented in the notes): the representation of Rust values in 
 list with the innermost element first; HashMap = association list, insert = cons), the symbol-map calls as the abstraction
 of Scope.v (three arenas records / multiclasses / leaves), the typed AST accessors as fields of the CoreAst constructors,
 the diagnostic messages as `dkind` classes."""
+import os
 import re
 from rsutil import TranslateError, read, strip_comments, cut_tests
 import t_lineindex as base
@@ -832,8 +833,85 @@ class Gen3:
                     return "M"
         return "pure"
 
+    def emit_ctx_new(self, fn):
+        """IndexCtx::new(db, root_file): the initial state.  The fields of the struct literal are placed by name (table: the
+        database is the Section's db_files and not part of the state; the symbol map is its ten components in Scope.st;
+        s_bad is the ghost panic flag)"""
+        line = fn["line"]
+        b = fn["body"]
+        ps = fn["params"]
+        if len(ps) != 2 or ps[0][1] != CTX_STRUCT[0][1] or ps[1][1] != "FileId" or fn["ret"] != "Self" or b[1] or b[2] is None \
+                or b[2][0] != "struct" or b[2][1] != ["Self"]:
+            self.no(line, "IndexCtx::new is expected to be `Self { .. }` over (db, root file)")
+        dbn, rf = ps[0][0], ps[1][0]
+        fields = dict(b[2][2])
+        if len(fields) != len(b[2][2]) or sorted(fields) != sorted(f for f, _ in CTX_STRUCT):
+            self.no(line, "IndexCtx::new: field set differs from struct IndexCtx")
+        env = {rf: ("v_" + rf, "FileId")}
+
+        def ids(xs):
+            cs = []
+            for x in xs:
+                c, t = self.tr(x, env)
+                if t != "FileId":
+                    self.no(line, "file id expected, found %s" % (t,))
+                cs.append(c)
+            return cs
+        e = fields["db"]
+        if e != ("path", [dbn], e[2]):
+            self.no(line, "IndexCtx::new: db")
+        e = fields["file_trace"]
+        if e[0] != "macro" or e[1] != ["vec"]:
+            self.no(line, "IndexCtx::new: file_trace is expected to be vec![..]")
+        trace = "[%s]" % "; ".join(reversed(ids(e[2])))            # a Vec used as a stack: innermost first
+        e = fields["indexed_files"]
+        if e[0] == "call" and e[1][0] == "path" and e[1][1] == ["HashSet", "from"] and len(e[2]) == 1 and e[2][0][0] == "array":
+            indexed = "[%s]" % "; ".join(ids(e[2][0][1]))
+        elif e[0] == "call" and e[1][0] == "path" and e[1][1] == ["HashSet", "new"] and not e[2]:
+            indexed = "[]"
+        else:
+            self.no(line, "IndexCtx::new: indexed_files")
+        e = fields["symbol_map"]
+        if not (e[0] == "call" and e[1][0] == "path" and e[1][1] == ["SymbolMap", "default"] and not e[2]):
+            self.no(line, "IndexCtx::new: symbol_map is expected to be SymbolMap::default()")
+        if not self.symbol_map_derives_default:
+            self.no(line, "SymbolMap::default() is not the derived one")
+        e = fields["diagnostics"]
+        if not (e[0] == "call" and e[1][0] == "path" and e[1][1] == ["Vec", "new"] and not e[2]):
+            self.no(line, "IndexCtx::new: diagnostics is expected to be Vec::new()")
+        e = fields["scopes"]
+        if not (e[0] == "call" and e[1][0] == "path" and e[1][1] == ["Scopes", "default"] and not e[2]) or ("Scopes", "default") not in self.sigs:
+            self.no(line, "IndexCtx::new: scopes is expected to be Scopes::default()")
+        e = fields["anonymous_def_index"]
+        if e[0] != "num":
+            self.no(line, "IndexCtx::new: anonymous_def_index")
+        self.sigs[("IndexCtx", "new")] = ("src_IndexCtx_new", "pure", [(rf, "FileId")], "Ctx")
+        return ("Definition src_IndexCtx_new (v_%s : N) : st :=\n  mkSt %s %s [] [] [] [] [] [] [] [] [] [] [] %s %d false.\n"
+                % (rf, trace, indexed, self.sigs[("Scopes", "default")][0], e[1]))
+
+    def emit_ctx_finish(self, fn):
+        """IndexCtx::finish(self) -> Index { symbol_map, diagnostics }: the symbol-map components and the diagnostics of the state"""
+        line = fn["line"]
+        b = fn["body"]
+        if fn["params"] != [("self", "Self")] or fn["ret"] != "Index" or b[1] or b[2] is None or b[2][0] != "struct" or b[2][1] != ["Index"]:
+            self.no(line, "IndexCtx::finish is expected to be `Index { .. }`")
+        fields = dict(b[2][2])
+        if sorted(fields) != ["diagnostics", "symbol_map"] or len(b[2][2]) != 2:
+            self.no(line, "IndexCtx::finish: field set of Index")
+        for f in ("symbol_map", "diagnostics"):
+            e = fields[f]
+            if e != ("field", ("path", ["self"], e[1][2]), f, e[3]):
+                self.no(line, "IndexCtx::finish: %s is expected to be self.%s" % (f, f))
+        self.sigs[("IndexCtx", "finish")] = ("src_IndexCtx_finish", "pure", [], "Index")
+        sm = "(s_recs s, s_mcs s, s_leaves s, s_nclass s, s_ndef s, s_nmc s, s_ndset s, s_pos s, s_refs s, s_uses s)"
+        return ("Definition src_IndexCtx_finish (s : st) :=\n  (%s, s_diags s).\n" % sm)
+
     def emit(self, owner, fn):
         self.owner = owner
+        if owner == "IndexCtx" and fn["name"] == "new":
+            return self.emit_ctx_new(fn)
+        if owner == "IndexCtx" and fn["name"] == "finish":
+            return self.emit_ctx_finish(fn)
         kind = self.classify(owner, fn)
         coq = "src_%s_%s" % (owner, fn["name"])
         env, cparams, params = {}, [], []
@@ -2358,6 +2436,64 @@ class IxGen:
 
         return go(0, env, None)
 
+    def render_index(self, fn, indent):
+        """fn index(db) -> Arc<Index>: the salsa query.  Table: `db.source_root().root()` is file number 0 (the bridge numbers
+        the root file 0, as Scope.st0 does), `db.parse(f)` + `ast::SourceFile::cast(..).expect(..)` is the statement list of
+        file f of the workspace [db_files] (a panic if there is none), `Arc::new` is the identity"""
+        line = fn["line"]
+        st, tail = fn["body"][1], fn["body"][2]
+
+        def let(x, mut=False):
+            if x[0] != "let" or x[4] is not None:
+                self.no(line, "index: statement")
+            pat = x[1]
+            if mut:
+                if pat[0] != "pmut":
+                    self.no(line, "index: let mut expected")
+                pat = pat[1]
+            if pat[0] != "pbind":
+                self.no(line, "index: let pattern")
+            return pat[1], x[3]
+
+        def var(e, name):
+            return e == ("path", [name], e[2]) if e[0] == "path" else False
+        if fn["params"] != [("db", "dynIndexDatabase")] or len(st) != 6 or tail is None:
+            self.no(line, "index: signature / number of statements (%s)" % (fn["params"],))
+        a, e = let(st[0])
+        if not (e[0] == "mcall" and var(e[1], "db") and e[2] == "source_root" and not e[3]):
+            self.no(line, "index: db.source_root()")
+        r, e = let(st[1])
+        if not (e[0] == "mcall" and var(e[1], a) and e[2] == "root" and not e[3]):
+            self.no(line, "index: source_root.root()")
+        p_, e = let(st[2])
+        if not (e[0] == "mcall" and var(e[1], "db") and e[2] == "parse" and len(e[3]) == 1 and var(e[3][0], r)):
+            self.no(line, "index: db.parse(root_file)")
+        f, e = let(st[3])
+        ok = (e[0] == "mcall" and e[2] == "expect" and len(e[3]) == 1 and e[1][0] == "call" and e[1][1][0] == "path"
+              and e[1][1][1] == ["ast", "SourceFile", "cast"] and len(e[1][2]) == 1 and e[1][2][0][0] == "mcall"
+              and e[1][2][0][2] == "syntax_node" and var(e[1][2][0][1], p_))
+        if not ok:
+            self.no(line, "index: ast::SourceFile::cast(parse.syntax_node()).expect(..)")
+        c, e = let(st[4], mut=True)
+        if not (e[0] == "call" and e[1][0] == "path" and e[1][1] == ["IndexCtx", "new"] and len(e[2]) == 2 and var(e[2][0], "db")
+                and var(e[2][1], r)):
+            self.no(line, "index: IndexCtx::new(db, root_file)")
+        x = st[5]
+        ok = (x[0] == "expr" and x[1][0] == "mcall" and x[1][2] == "index" and var(x[1][1], f) and len(x[1][3]) == 1
+              and x[1][3][0][0] == "un" and x[1][3][0][1] == "&mut" and var(x[1][3][0][2], c))
+        if not ok:
+            self.no(line, "index: source_file.index(&mut ctx)")
+        ok = (tail[0] == "call" and tail[1][0] == "path" and tail[1][1] == ["Arc", "new"] and len(tail[2]) == 1
+              and tail[2][0][0] == "mcall" and tail[2][0][2] == "finish" and not tail[2][0][3] and var(tail[2][0][1], c))
+        if not ok:
+            self.no(line, "index: Arc::new(ctx.finish())")
+        if "SourceFile" not in self.rendered or not self.ctx_new_finish:
+            self.no(line, "index: SourceFile::index / IndexCtx::new / IndexCtx::finish are not rendered")
+        return ("%slet v_%s := 0 in\n%slet v_%s := src_IndexCtx_new v_%s in\n%smatch nthN db_files v_%s with\n"
+                "%s| None => src_IndexCtx_finish (snd (@bad unit v_%s))\n"
+                "%s| Some v_%s => src_IndexCtx_finish (snd (src_ix_SourceFile v_%s v_%s))\n%send"
+                % (indent, r, indent, c, r, indent, r, indent, c, indent, f, f, c, indent))
+
     def render_Include(self, fn, indent):
         """ast::Include over SInclude r target: the database lookups (resolved_include_map / IncludeId / get) are the field
         `target`, `ctx.db.parse(f)` + `SourceFile::cast(..)?` is the statement list of file f in the workspace [db_files]"""
@@ -2477,6 +2613,12 @@ def translate(repo):
     scope, ctx = parse(repo, SCOPE), parse(repo, CONTEXT)
     check_decls(scope, ctx)
     g = Gen3()
+    try:
+        smsrc = open(os.path.join(repo, "crates/ide/src/symbol_map.rs")).read()
+    except OSError:
+        smsrc = ""
+    dm = re.search(r"#\[derive\(([^)]*)\)\]\s*pub struct SymbolMap\b", smsrc)
+    g.symbol_map_derives_default = bool(dm and "Default" in [x.strip() for x in dm.group(1).split(",")])
     out = ["(* GENERATED by tools/translate/t_indexer.py from crates/ide/src/index/scope.rs, index/context.rs (and, function by"
            " function, index.rs) -- do not edit *)",
            "From Coq Require Import List NArith Bool.", "From TG.Model Require Import CoreAst Scope BangOps Indexer IndexerSrc.",
@@ -2546,11 +2688,19 @@ def translate(repo):
     # enum dispatchers last
     items.sort(key=lambda x: 1 if x[1] in ENUM_NODES else 0)      # (ENUM_NODES is complete by now)
     n_index_fns = 0
+    ig.ctx_new_finish = ("IndexCtx::new" in rendered and "IndexCtx::finish" in rendered)
+    items.sort(key=lambda x: 2 if x[0] == "index" else 0)          # the entry point last (stable: the dispatchers stay before it)
     for label, T, fn in items:
-        if label in ("index",):
-            refused.append((label, "the salsa query entry point (database access)"))
-            continue
         n_index_fns += 1
+        if label == "index" and not fn.get("unparsed"):
+            try:
+                text = ig.render_index(fn, "    ")
+                sec.append("  (* %s: %s *)" % (INDEX, label))
+                sec.append("  Definition src_index :=\n%s.\n" % text)
+                rendered.append(label)
+            except (Refuse, TranslateError) as ex:
+                refused.append((label, str(ex)))
+            continue
         if fn.get("unparsed"):
             refused.append((label, fn["unparsed"]))
             continue
